@@ -105,4 +105,10 @@ def run_many(jobs, workers=None):
     """jobs: list of kwargs dicts for run_project; returns results in order."""
     build_ferret()
     with ThreadPoolExecutor(max_workers=workers or NPROC) as ex:
-        return list(ex.map(lambda kw: run_project(**kw), jobs))
+        res = list(ex.map(lambda kw: run_project(**kw), jobs))
+    # a job that timed out while the machine was saturated is run again on its own, with a longer limit, before anyone judges it
+    for i, (kw, r) in enumerate(zip(jobs, res)):
+        if r.timeout:
+            kw2 = dict(kw); kw2["timeout"] = 3 * kw.get("timeout", 60)
+            res[i] = run_project(**kw2)
+    return res
